@@ -84,6 +84,13 @@ Theorem C01_tts_fh_sound : forall nn f a b, valid_fh f -> tts_fh_relative nn f =
 Proof. exact tts_fh_sound. Qed.
 Print Assumptions C01_tts_fh_sound.
 
+Theorem C01_tts_fh_absolute_sound : forall lo nn f a b, f <> [] -> sorted_lt f ->
+  tts_fh_absolute lo nn f = Ok (a, b) ->
+  b = f /\ (forall x, In x a <-> lo <= x < zfirst f) /\
+  (forall x y, In x a -> In y b -> x < y) /\ (forall y, In y b -> lo <= y < lo + nn).
+Proof. exact tts_fh_absolute_sound. Qed.
+Print Assumptions C01_tts_fh_absolute_sound.
+
 (* hypotheses are satisfiable by a non-trivial configuration *)
 Example C01_nonvacuous : valid ex_cfg /\ feasible ex_cfg = true /\
   window_split Sliding ex_cfg = Ok [([0;1;2;3;4], [5;7]); ([4;5;6], [7;9]); ([6;7;8], [9;11])].
